@@ -29,8 +29,8 @@ ASSUMPTIONS = ["literals are compared by py_val (Geography by its text)", "SQL n
 
 _lx, _ps = ODataLexer(), ODataParser()
 _SP = SlotPrinter()
-REQ_ALTS = ["  ", "\t", "\n", " \t\n"]
-OPT_ALTS = ["", " ", "\n"]
+REQ_ALTS = ["  ", "\t", "\n", " \t\n", " " * 33, "\n" + " " * 32, "\t" * 100, " " * 1000]
+OPT_ALTS = ["", " ", "\n", " " * 40, "\n" + " " * 64]
 
 
 def case_alts(word):
